@@ -480,7 +480,7 @@ impl Value {
                 _ => Ordering::Greater,
             },
             Value::Text(s) => match other {
-                Value::Record(_, _) => Ordering::Greater,
+                Value::Record(_, _) | Value::Data(_) => Ordering::Greater,
                 Value::Text(t) => s.cmp(t),
                 _ => Ordering::Less,
             },
@@ -496,6 +496,7 @@ impl Value {
                         .chain(items2.iter().map(Either::Right));
                     first.cmp(second)
                 }
+                Value::Data(_) => Ordering::Greater,
                 _ => Ordering::Less,
             },
             Value::BigInt(bi) => match other {
